@@ -91,7 +91,7 @@ def m_prop(code: int, obj_type: int, instance: int, pid: int, noe: int, six: int
 # ---------------------------------------------------------------------------
 
 #: lengths of the whole APDU (octet 0 holds TPCI bits + 2 APCI bits)
-APDU_LENGTHS_QUICK = (1, 2, 3, 4, 5, 6, 7, 8, 9, 10, 11, 12, 13, 14, 15, 16, 17, 18, 19, 22, 23, 24, 255)
+APDU_LENGTHS_QUICK = (1, 2, 3, 4, 5, 6, 7, 8, 9, 10, 11, 12, 13, 14, 15, 16, 17, 18, 19, 22, 23, 24, 255, 256, 257)
 APDU_LENGTHS_FULL = tuple(range(1, 34)) + (40, 55, 56, 57, 64, 100, 128, 200, 253, 254, 255, 256, 257)
 
 #: APCI values whose low 6 bits select a sub-service (everything else is 4 bit + 6 data bits)
